@@ -3,7 +3,7 @@
    every run (Gen/Params.v); the proofs unfold them, so a change of the code's arithmetic re-opens them. *)
 From Coq Require Import String.
 From Coq Require Import List Ascii Bool ZArith QArith Qround Qabs Lia Lqa.
-Require Import Model.Text Model.ParamTypes Model.Num Model.PyNum Gen.Params Model.Number Spec.NumSpec.
+Require Import Model.Text Model.ParamTypes Model.Num Model.PyNum Gen.PNumeric Model.Number Spec.NumSpec.
 Import ListNotations.
 Local Open Scope Q_scope.
 
